@@ -27,6 +27,23 @@ def load_variants():
 
 def apply_variant(v, root):
     """Apply edits in place under root/jsonschema. Returns False if an anchor is missing."""
+    if v.get("transform") == "rename_reorder":
+        from sa.transforms import rename_locals, reorder_functions
+        pkg = os.path.join(root, "jsonschema")
+        mods = ["_validators.py", "_legacy_validators.py", "_utils.py", "validators.py", "_format.py", "exceptions.py", "_types.py", "cli.py"]
+        src = {}
+        for m in mods:
+            with open(os.path.join(pkg, m), encoding="utf-8") as f:
+                src[m] = f.read()
+        new = rename_locals(src)
+        for m in mods:
+            t = new[m]
+            if m in ("_validators.py", "_legacy_validators.py", "_utils.py", "_types.py"):
+                t = reorder_functions(t)
+            compile(t, m, "exec")
+            with open(os.path.join(pkg, m), "w", encoding="utf-8") as f:
+                f.write(t)
+        return True
     for (rel, old, new) in v["edits"]:
         p = os.path.join(root, "jsonschema", rel)
         with open(p, encoding="utf-8") as f:
